@@ -435,6 +435,9 @@ type checker struct {
 	// classes of their own (precise signatures)
 	scanStale []string // Scan of an empty result into a slice that was used before
 	mapAppend []string // Find into a []map that was used before
+	// several read paths on one handle (reuse.go)
+	reusedHandle []string // a step disagrees after other reads on the same handle, and agrees on a handle of its own
+	rowDiffers   []string // Row() itself disagrees with the rows Find returns
 }
 
 func (k *checker) add(f string, a ...interface{}) {
@@ -1108,7 +1111,11 @@ var errBound = errors.New("verif: batch bound exceeded")
 
 // batches runs FindInBatches and checks it against want (rows Find would return, pk order).
 func (k *checker) batches(bs int, want []pred.Row, dest string) {
-	root := H.DB.Session(&gorm.Session{})
+	k.batchesOn(k.cc.build(H.DB.Session(&gorm.Session{})), bs, want, dest)
+}
+
+// batchesOn: the same on a given handle (used once).
+func (k *checker) batchesOn(h *gorm.DB, bs int, want []pred.Row, dest string) {
 	bound := len(k.table)/bs + 3
 	n := 0
 	var got []pred.Row
@@ -1131,7 +1138,7 @@ func (k *checker) batches(bs int, want []pred.Row, dest string) {
 	var res *gorm.DB
 	if dest == "ptr" {
 		var out []*pred.Row
-		res = k.cc.build(root).FindInBatches(&out, bs, func(tx *gorm.DB, no int) error {
+		res = h.FindInBatches(&out, bs, func(tx *gorm.DB, no int) error {
 			b := make([]pred.Row, len(out))
 			for i, p := range out {
 				b[i] = *p
@@ -1140,7 +1147,7 @@ func (k *checker) batches(bs int, want []pred.Row, dest string) {
 		})
 	} else {
 		var out []pred.Row
-		res = k.cc.build(root).FindInBatches(&out, bs, func(tx *gorm.DB, no int) error {
+		res = h.FindInBatches(&out, bs, func(tx *gorm.DB, no int) error {
 			return cb(append([]pred.Row(nil), out...), tx, no)
 		})
 	}
@@ -1257,6 +1264,8 @@ func run(c *core.Ctx) {
 		emit(what, k.problems, strings.Contains(what, ":"))
 		emit("Scan:used-slice-kept-on-empty-result", k.scanStale, true)
 		emit("Find[]map:used-slice-appended-to", k.mapAppend, true)
+		emit("ReadPaths:reused-handle", k.reusedHandle, true)
+		emit("Row:differs-from-Find", k.rowDiffers, true)
 		return len(k.problems) > 0
 	}
 	// through a Scopes call (one chain in three; two in three of these hand back a new session)
@@ -1382,6 +1391,7 @@ func run(c *core.Ctx) {
 			k.readPaths(want, mt)
 			k.sharedBase(mt)
 			k.joined(mt)
+			k.reused(want, mt)
 			return k
 		}
 		_, want := cc.reference(table)
